@@ -31,6 +31,24 @@ def ctx(src,kind):
                 if isinstance(x,ast.Name) and x.id not in names: names.append(x.id)
         if not names: return None
         return head+"def wrapper_fn(param_a=None):\n"+ind(body)+"    def vf_inner():\n        return ("+", ".join(names[:6])+",)\n    return vf_inner\n"
+    if kind=="comprehension":
+        # every single-line call statement of the body moves into a comprehension whose loop variables carry the short names rewrites like to generate (p, f, e, x, i, lock, file)
+        try: t=ast.parse(body)
+        except SyntaxError: return None
+        L=body.splitlines(keepends=True); n_=0
+        per=collections.Counter(n.lineno for n in ast.walk(t) if isinstance(n,ast.stmt))
+        for n in sorted((x for x in ast.walk(t) if isinstance(x,(ast.Assign,ast.Expr,ast.Return))),key=lambda x:-x.lineno):
+            if n_: break      # the last eligible statement of the body (usually the trigger); earlier ones stay as they are so that what they bind keeps its type
+            v=getattr(n,"value",None)
+            if not isinstance(v,ast.Call) or n.lineno!=n.end_lineno or per[n.lineno]!=1: continue
+            l=L[n.lineno-1]; b=l.rstrip("\r\n"); nl=l[len(b):] or "\n"
+            if "#" in b or not b.isascii() or v.end_col_offset!=len(b) or b.rstrip().endswith(";"): continue
+            used={x.id for x in ast.walk(t) if isinstance(x,ast.Name)}|{a.arg for x in ast.walk(t) if isinstance(x,ast.arguments) for a in x.args+x.kwonlyargs}
+            loops=" ".join(f"for {nm} in vf_iter" for nm in ("p","f","e","x","i","lock","file") if nm not in used)      # a loop variable must not capture a name the body already uses
+            if not loops: continue
+            L[n.lineno-1]=f"{b[:v.col_offset]}[{b[v.col_offset:]} {loops}]{nl}"; n_+=1
+        if not n_: return None
+        return head+"def wrapper_fn(vf_iter=(1,)):\n"+ind("".join(L))
     if kind=="prelude": return head+"".join(f"CONST_{i} = {i}\n" for i in range(7))+"\n"+body
     raise ValueError(kind)
 
@@ -217,6 +235,29 @@ def dataflow_chain(src):
     except SyntaxError: return None
     return out
 
+def paren_multiline(src):
+    """every single-line `x = CALL(..)` / `CALL(..)` / `return CALL(..)` statement becomes a parenthesised expression opening and closing on lines of its own:
+    x = (
+        CALL(..)
+    )
+    the construct still sits on ONE physical line, the statement around it does not"""
+    try: tree = ast.parse(src)
+    except SyntaxError: return None
+    lines = src.splitlines(keepends=True); n_ = 0
+    per_line = collections.Counter(n.lineno for n in ast.walk(tree) if isinstance(n, ast.stmt))
+    for n in sorted((x for x in ast.walk(tree) if isinstance(x, (ast.Assign, ast.Expr, ast.Return, ast.AnnAssign))), key=lambda x: -x.lineno):
+        v = getattr(n, "value", None)
+        if not isinstance(v, ast.Call) or n.lineno != n.end_lineno or per_line[n.lineno] != 1: continue
+        l = lines[n.lineno - 1]; body = l.rstrip("\r\n"); nl = l[len(body):] or "\n"
+        if "#" in body or body.rstrip().endswith(("\\", ";")) or v.end_col_offset != len(body.encode("utf-8")) or not body.isascii(): continue
+        ind = body[: n.col_offset]
+        lines[n.lineno - 1] = f"{body[: v.col_offset]}({nl}{ind}    {body[v.col_offset:]}{nl}{ind}){nl}"; n_ += 1
+    if not n_: return None
+    out = "".join(lines)
+    try: compile(out, "<layout>", "exec")
+    except SyntaxError: return None
+    return out
+
 def backslash_continued(src):
     """break the first long-enough simple assignment / expression line after its first ' = ' or '(' ... conservative: only `x = expr` lines"""
     lines = src.splitlines(keepends=True)
@@ -232,7 +273,7 @@ def backslash_continued(src):
 def form_feed(src):
     return "\x0c\n" + src if not src.startswith("from __future__") else None
 
-CALL_LAYOUTS = {"trailing-comma": trailing_comma, "exploded": exploded_calls, "exploded-comments": exploded_calls_with_comments, "semicolon": semicolon_joined, "backslash": backslash_continued, "formfeed": form_feed, "dataflow": dataflow_chain}
+CALL_LAYOUTS = {"trailing-comma": trailing_comma, "exploded": exploded_calls, "exploded-comments": exploded_calls_with_comments, "semicolon": semicolon_joined, "backslash": backslash_continued, "formfeed": form_feed, "dataflow": dataflow_chain, "paren-multiline": paren_multiline}
 
 class _Hanging(cst.CSTTransformer):
     """hanging indent: break after the first argument only -> `f(a,\\n    b, c)`; the last line carries the closing parenthesis"""
@@ -310,6 +351,18 @@ def twice(src):
     if not body.endswith("\n"): body += "\n"
     out = head + body + "\nVF_BETWEEN_SITES = 0\n" + body
     try: compile(out, "<twice>", "exec")
+    except SyntaxError: return None
+    return out
+
+def pair(src_a, src_b):
+    """two DIFFERENT seeds of one codemod in one file (their import blocks merged): the kinds of site a codemod knows meet in one module"""
+    ha, ba = split_head(src_a); hb, bb = split_head(src_b)
+    if not ba.strip() or not bb.strip() or ba.strip() == bb.strip(): return None
+    head = "".join(dict.fromkeys((ha + hb).splitlines(keepends=True)))
+    if head and not head.endswith("\n"): head += "\n"
+    if not ba.endswith("\n"): ba += "\n"
+    out = head + ba + "\nVF_BETWEEN_SEEDS = 0\n" + bb
+    try: compile(out, "<pair>", "exec")
     except SyntaxError: return None
     return out
 
